@@ -68,9 +68,12 @@ class LongPoll(object):
         if response.response_type == ResponseType.NO_CHANGE:
             logging.debug("No Change in config.")
             self.config.tracepoints.update_no_change(response.ts_nanos)
-        else:
+        elif response.response_type == ResponseType.UPDATE:
             self.config.tracepoints.update_new_config(response.ts_nanos, response.current_hash,
                                                       convert_response(response.response))
+        else:
+            # a response type we do not know (the enum is open on the wire): the last good config stays in force
+            logging.warning("Unknown poll response type %s", response.response_type)
 
     def shutdown(self):
         """Shutdown the timer."""
